@@ -101,8 +101,28 @@ def import_(pid):
         sid = f"{pid}{sub.lower()}"
         dst = os.path.join(VERIF, "seeded", sid)
         os.makedirs(dst, exist_ok=True)
-        for fn in ("patch.diff", "demo.py", "meta.json"):
+        if not os.path.isfile(os.path.join(srcd, "demo.py")):
+            print(f"== {sid}: incomplete (no demo.py)"); shutil.rmtree(dst); continue
+        for fn in ("patch.diff", "demo.py"):
             shutil.copy(os.path.join(srcd, fn), os.path.join(dst, fn))
+        if os.path.isfile(os.path.join(srcd, "meta.json")):
+            shutil.copy(os.path.join(srcd, "meta.json"), os.path.join(dst, "meta.json"))
+        else:
+            # the seeding agent died before writing meta.json: derive the essentials
+            files = [l[6:].strip() for l in open(os.path.join(srcd, "patch.diff")) if l.startswith("+++ b/")]
+            tests = []
+            for f in files:
+                d, b = os.path.split(f)
+                for cand in (os.path.join(d, "test", "test_" + b), os.path.join("src/twisted/test", "test_" + b),
+                             os.path.join(d, "test", "test_" + b.lstrip("_"))):
+                    if os.path.isfile(os.path.join(wt, cand)) and cand not in tests:
+                        tests.append(cand)
+                if b == "defer.py":
+                    tests += ["src/twisted/test/test_defgen.py", "src/twisted/internet/test/test_inlinecb.py", "src/twisted/test/test_task.py"]
+                if b == "base.py":
+                    tests += ["src/twisted/internet/test/test_base.py", "src/twisted/internet/test/test_time.py", "src/twisted/test/test_internet.py", "src/twisted/internet/test/test_core.py"]
+            json.dump({"property": pid, "summary": "(seeding agent was interrupted before writing meta.json; see patch.diff and the docstring of demo.py)",
+                       "needs": "see demo.py", "files": files, "tests": tests}, open(os.path.join(dst, "meta.json"), "w"), indent=1)
         sh("git checkout -- . && git clean -fdq", cwd=wt)
         buf = io.StringIO()
         with contextlib.redirect_stdout(buf):
